@@ -195,14 +195,17 @@ Section Exact.
     try (exists true, A; split; [reflexivity|split; [apply PostR_refl|symmetry; exact HRu]]; fail);
     try (exists false, A; split; [reflexivity|split; [apply PostR_refl|symmetry; exact HRu]]; fail).
     (* resources *)
-    all: try (exists (r =? r0), A; split; [reflexivity|split; [apply PostR_refl|symmetry; exact HRu]]; fail).
+    all: try (match type of Hls with _ = Some (TResource _) => idtac end;
+              exists (r =? r0), A; split; [reflexivity|split; [apply PostR_refl|symmetry; exact HRu]]; fail).
     (* union on the left (non-empty) *)
-    all: try (eapply (Hins _ (forallb (fun v => R v p) (v0 :: vs)));
+    all: try (match type of Hls with _ = Some (TUnion (_ :: _)) => idtac end;
+              eapply (Hins _ (forallb (fun v => R v p) (v0 :: vs)));
               [apply (all_left_x (check_rel cfg P All f) (s + p) HRS p Hp (v0 :: vs) ((s, p) :: A) _ ps
                         (fun v Hv => conj (Hvs v Hv) (proj1 (Nat.add_lt_mono_r v s p) (child_lt P Htopo s _ v Hls Hv))) HIk)
               |symmetry; exact HRu]; fail).
     (* union on the right *)
-    all: try (eapply (Hins _ (existsb (fun w => R s w) ws));
+    all: try (match type of Hlp with _ = Some (TUnion _) => idtac end;
+              eapply (Hins _ (existsb (fun w => R s w) ws));
               [apply (any_right_x (check_rel cfg P All f) (s + p) HRS s Hs ws ((s, p) :: A) ss _
                         (fun v Hv => conj (Hws v Hv) (proj1 (Nat.add_lt_mono_l v p s) (child_lt P Htopo p _ v Hlp Hv))) HIk)
               |symmetry; exact HRu]; fail).
